@@ -17,10 +17,9 @@ EXEMPT_X_FIT = {
 }
 EXEMPT_LEAF_PRED = {
     'kernel_obj.is_adaptive_bandwidth': 'True after construction and after every completed kernel call; False only between the reset in fit_predictor and the Gram call that follows it',
-    'solver': 'read only in `== "log_reg"`; the logistic solver is outside every property\'s scope',
     'class_converter': 'the leaf converter is the xRFM-level converter handed over through extra_rfm_params_ (restored by load); RFM.fit replaces it only when it is None and there are several outputs (regression), where predict_proba is not used',
     'class_converter._invA': 'same as class_converter', 'class_converter.mode': 'same as class_converter',
-    'class_converter._numerical_type': 'written only for solver log_reg (out of scope)',
+    'class_converter._numerical_type': 'the leaf converter is the model-level converter object, whose _numerical_type is exported and restored at model level',
     'class_converter.n_classes': 'same as class_converter', 'class_converter._C': 'same as class_converter', 'class_converter._prior': 'same as class_converter',
 }
 
@@ -88,6 +87,8 @@ def load_tables():
                                 leaf[tgt[len('leaf_model.'):]] = m2.group(1)
                             if tgt == 'leaf_model.centers' and val == 'X_train[leaf_center_indices]':
                                 leaf['centers'] = 'train_indices'
+                            if tgt == 'leaf_model.solver' and val == 'self.solver':
+                                leaf['solver'] = '@model.solver'       # handed down from the model-level key 'solver'
     return model, leaf
 
 
@@ -103,6 +104,11 @@ def roundtrip_rows():
                                   or (key == 'extra_rfm_params_' and exp == 'clean_extra_rfm_params'))
         rows.append(('model', attr, key, exp, bool(ok)))
     for attr, key in sorted(ll.items()):
+        if key == '@model.solver':
+            exp = em.get('solver')
+            ok = exp is not None and lm.get('solver') == 'solver'
+            rows.append(('leaf', attr, 'solver (model level)', exp, bool(ok)))
+            continue
         exp = el.get(key)
         ok = exp is not None and (exp == 'leaf_model.' + attr or (attr == 'centers' and exp == "tree['train_indices']"))
         rows.append(('leaf', attr, key, exp, bool(ok)))
